@@ -193,11 +193,26 @@ def generate_with_history(case: dict, prefix: str) -> genrun.GenResult:
     res = genrun.generate({**case, "cfg": cfg})
     if res.ok and case.get("drift") and case["cfg"].get("core"):
         # history: the shared core already holds a drifted runtime module (local hot-fix / truncated write), then regenerate
-        for fn in ("exceptions.py", "streaming_helpers.py", os.path.join("auth", "plugins.py")):
+        # three kinds of drift: an appended line, a whitespace-only change (blank lines collapsed), a re-indented line
+        for fn, kind in (("exceptions.py", "append"), ("streaming_helpers.py", "collapse_blank_lines"), (os.path.join("auth", "plugins.py"), "append"),
+                         ("http_transport.py", "reindent_one_line"), ("config.py", "collapse_blank_lines")):
             p = os.path.join(res.core_dir, fn)
-            if os.path.exists(p):
-                with open(p, "a") as f:
-                    f.write("\n# locally drifted copy\n")
+            if not os.path.exists(p):
+                continue
+            src = open(p, encoding="utf-8").read()
+            if kind == "append":
+                src += "\n# locally drifted copy\n"
+            elif kind == "collapse_blank_lines":
+                src = "\n".join(l for l in src.split("\n") if l.strip()) + "\n"
+            else:
+                lines = src.split("\n")
+                for i, l in enumerate(lines):
+                    if l.startswith("        ") and l.strip() and not l.strip().startswith(("#", '"', "'")):
+                        lines[i] = "    " + l  # one statement indented one level further (same tokens, other meaning)
+                        break
+                src = "\n".join(lines)
+            with open(p, "w", encoding="utf-8") as f:
+                f.write(src)
         res2 = genrun.generate({**case, "cfg": cfg}, root=res.root, force=True)
         res2.spec_path = res.spec_path
         return res2
